@@ -48,6 +48,10 @@ def families(tier):
     fams.append(("aromatic-chain", [("n=%d" % n, "c1ccccc1" * n) for n in ns[:4]]))
     fams.append(("open-parens", [("n=%d" % n, "C" + "(" * n) for n in (1, 10, 1000, 100000)]))
     fams.append(("dots", [("n=%d" % n, "C" + "." * n + "C") for n in (1, 2, 10, 1000)]))
+    digs = (1, 10, 100, 1000, 4299, 4300, 4301, 5000, 100000)
+    fams.append(("long-digit-run", [("%s n=%d" % (k, n), t % ("1" * n)) for n in digs for k, t in
+                                    (("isotope", "[%sC]"), ("charge", "C[C+%s]"), ("neg-charge", "[O-%s]C"), ("class", "[C:%s]"),
+                                     ("Hcount", "[CH%s]"), ("aromatic-isotope", "c1cc[%sc]cc1"))]))
     fams.append(("self-ring", [(s, s) for s in ("C11", "c11", "C1.C1", "C%11%11", "C12.C12", "CC11", "C1C1", "C11C",
                                                  "C=1=1", "[C@]11", "C1(C)1", "F:F", "c:[cn]", "C:C", "[Fe]:[Fe]", "c:F",
                                                  "C1:C:C:C:C:C1", "O:O", "[H]:[H]", "Cl:Cl", "B:B", "[Si]:[Si]")]))
